@@ -4,6 +4,7 @@ package main
 // Stream 1 (this file): helpers.IsTruthy on values of every Go kind vs the documented rule (oracle) and vs the Lean model.
 
 import (
+	"math"
 	"fmt"
 
 	vuego "github.com/titpetric/vuego"
@@ -20,6 +21,8 @@ func c03Values() []any {
 		int(0), int(1), int(-1), int8(0), int8(5), int16(0), int16(-3), int32(0), int32(7), int64(0), int64(9),
 		uint(0), uint(2), uint8(0), uint8(200), uint16(0), uint16(3), uint32(0), uint32(4), uint64(0), uint64(1 << 40), uintptr(0), uintptr(8),
 		float32(0), float32(1.5), float64(0), float64(-2.25), float64(1e21),
+		// the negative zero of both float widths IS zero (it compares equal to 0 and only prints differently)
+		math.Copysign(0, -1), float32(math.Copysign(0, -1)), float64(5e-324), float32(1e-45),
 		"", "0", "false", "true", "False", " ", "x", "00",
 		[]any{}, []any{0}, []int{}, []int{0, 1}, [2]int{0, 0}, map[string]any{}, map[string]any{"k": nil}, map[string]string{}, map[int]string{},
 		S2{}, S2{X: 1}, &S2{}, (*S2)(nil), np, &one, &zero,
